@@ -105,6 +105,8 @@ fn composite_samples() -> Vec<Value> {
         Value::make_grid(g_empty),
         Value::make_grid(g_meta),
         Value::make_grid(g_colmeta),
+        // a grid that carries another version than the current one, without meta
+        Value::make_grid({ let mut g = Grid::make_from_dicts(vec![d2.clone()]); g.ver = "2.0".into(); g }),
         Value::make_grid(g_meta2.clone()),
         Value::make_list(vec![Value::make_grid(g_meta2)]),
         Value::make_grid(g_zero_rows),
